@@ -22,7 +22,7 @@ CATALOGUE = [
      "            / (2 * exps_sum).squeeze(axis=1)[:, None, None, :, :, :] * (a + 1) / a\n            * (integrals[:-1, :, :, a - 1", "detect"),
     ("C03", "gbasis/integrals/point_charge.py", "            return np.transpose(output, (2, 3, 0, 1, 4))", "            return np.transpose(output, (2, 1, 0, 3, 4))", "detect"),
     ("C03,C14", "gbasis/integrals/point_charge.py", "            -points_charge\n", "            points_charge\n", "detect"),
-    ("C04,C11", "gbasis/integrals/electron_repulsion.py", "        array = np.transpose(array, (0, 2, 1, 3))", "        array = np.transpose(array, (0, 3, 2, 1))", "detect"),
+    ("C04", "gbasis/integrals/electron_repulsion.py", "        array = np.transpose(array, (0, 2, 1, 3))", "        array = np.transpose(array, (0, 3, 2, 1))", "detect"),
     ("C04,C09", "gbasis/base_four_symm.py", "                all_blocks[l, k, j, i] = np.swapaxes(np.swapaxes(block, 1, 2), 0, 3)\n\n        # concatenate\n        return np.concatenate(\n            [\n                np.concatenate(\n                    [\n                        np.concatenate(\n                            [np.concatenate(blocks_three, axis=3) for blocks_three in blocks_two],\n                            axis=2,\n                        )\n                        for blocks_two in blocks_one\n                    ],\n                    axis=1,\n                )\n                for blocks_one in all_blocks\n            ],\n            axis=0,\n        )\n\n    def construct_array_spherical",
      "                all_blocks[l, k, j, i] = np.swapaxes(np.swapaxes(block, 1, 3), 0, 2)\n\n        # concatenate\n        return np.concatenate(\n            [\n                np.concatenate(\n                    [\n                        np.concatenate(\n                            [np.concatenate(blocks_three, axis=3) for blocks_three in blocks_two],\n                            axis=2,\n                        )\n                        for blocks_two in blocks_one\n                    ],\n                    axis=1,\n                )\n                for blocks_one in all_blocks\n            ],\n            axis=0,\n        )\n\n    def construct_array_spherical", "detect"),
     ("C05,C06", "gbasis/evals/_deriv.py", "                * (4 * second_ang_comp[:, :, None] + 2)", "                * (4 * second_ang_comp[:, :, None] + 1)", "detect"),
